@@ -2,6 +2,7 @@ mod admission;
 mod codec;
 mod effects;
 mod expr;
+mod hashcache;
 mod kem;
 mod keysched;
 mod latesender;
@@ -39,6 +40,7 @@ fn main() {
         "welcome" => welcome::run(&a[2], &a[3]),
         "keysched" => keysched::run(&a[2], &a[3]),
         "reinitrule" => reinitrule::run(&a[2], &a[3]),
+        "hashcache" => hashcache::run(&a[2], &a[3]),
         _ => std::process::exit(2),
     }
 }
